@@ -178,6 +178,12 @@ pub fn finish(shard: &mut Shard, total: &Stats) {
             format!("{:?}", s),
         );
     }
+    for (k, v) in &total.freelist_fill {
+        shard.set("free_list_fill_near_capacity(entries of capacity)", format!("{} x{}", k, v.min(&9)));
+        if k.split(" of ").next().map(|a| k.contains(&format!("of {} ", a))).unwrap_or(false) {
+            shard.count("commits_whose_free_list_exactly_fills_its_pages", *v);
+        }
+    }
     for (k, v) in &total.how_used {
         shard.count(&format!("tobytes:{}", k), *v);
     }
@@ -239,15 +245,17 @@ pub fn run(ctx: &Ctx, mode: Mode) -> Shard {
     }
 
     // ---- 2. shape-directed subsets (seed independent; partitioned over shards)
-    let window = if ctx.thorough() { 12 } else { 8 };
-    let families: Vec<usize> = if ctx.thorough() {
+    // (the sanitizer pass repeats the quick-tier enumeration: its allocator costs a factor of ten)
+    let deep = ctx.thorough() && ctx.get("build") != Some("asan");
+    let window = if deep { 12 } else { 8 };
+    let families: Vec<usize> = if deep {
         (0..shape::N_FAMILIES).collect()
     } else {
         vec![0, 2, 5]
     };
     let mut idx: u64 = 0;
     let mut enumerated_all = true;
-    for bs in shape::base_shapes(ps, ctx.thorough()) {
+    for bs in shape::base_shapes(ps, deep) {
         let p = match shape::plan(&bs, ps, &scratch.fresh("plan"), window) {
             Ok(p) => p,
             Err(e) => {
@@ -266,7 +274,7 @@ pub fn run(ctx: &Ctx, mode: Mode) -> Shard {
             let w = p.windows[wi].len();
             for fam in &families {
                 // insertion families on a smaller window in quick mode
-                let bits = if !ctx.thorough() && *fam != 0 && *fam != 5 { w.min(6) } else { w };
+                let bits = if !deep && *fam != 0 && *fam != 5 { w.min(6) } else { w };
                 let step: u32 = if mode == Mode::C07 && ctx.thorough() && bits > 10 { 3 } else { 1 };
                 let mut mask: u32 = 1;
                 while mask < (1u32 << bits) {
@@ -315,7 +323,7 @@ pub fn run(ctx: &Ctx, mode: Mode) -> Shard {
     // ---- 5. directed: one commit that extends the file by more than one allocation step
     let mut i = 0usize;
     while let Some(h) = shape::big_commit_history(ps, i) {
-        if mode != Mode::C07 && (i as u64 + 9) % ctx.nshards == ctx.shard && (ctx.thorough() || i < 4) {
+        if mode != Mode::C07 && (i as u64 + 9) % ctx.nshards == ctx.shard && (deep || i < 4) {
             let path = scratch.fresh("b");
             let out = exec::run_history(&h, &cfg, &path);
             let _ = std::fs::remove_file(&path);
@@ -326,13 +334,57 @@ pub fn run(ctx: &Ctx, mode: Mode) -> Shard {
     // ---- 5b. directed: deep trees (five or six levels), cascading merges
     let mut i = 0usize;
     while let Some(h) = shape::deep_tree_history(ps, i) {
-        if (i as u64 + 1) % ctx.nshards == ctx.shard && (mode != Mode::C07 || i < 2) && (ctx.thorough() || i < 6) {
+        if (i as u64 + 1) % ctx.nshards == ctx.shard && (mode != Mode::C07 || i < 2) && (deep || i < 6) {
             let path = scratch.fresh("d");
             let out = exec::run_history(&h, &cfg, &path);
             let _ = std::fs::remove_file(&path);
             absorb(&mut shard, ctx, mode, &h, &out, &mut total, "deep-tree");
         }
         i += 1;
+    }
+    // ---- 5c. directed: exact sizes (every value length around page multiples) and free-list lengths around a full page
+    let mut i = 0usize;
+    while let Some(h) = shape::exact_fit_history(if deep && i % 2 == 1 { 4096 } else { ps }, i) {
+        if (i as u64 + 3) % ctx.nshards == ctx.shard && mode != Mode::C07 && (deep || i < 4) {
+            let path = scratch.fresh("e");
+            let out = exec::run_history(&h, &cfg, &path);
+            let _ = std::fs::remove_file(&path);
+            absorb(&mut shard, ctx, mode, &h, &out, &mut total, "exact-fit");
+        }
+        i += 1;
+    }
+    let mut i = 0usize;
+    while let Some(h) = shape::freelist_walk_history(ps, i) {
+        if (i as u64 + 12) % ctx.nshards == ctx.shard && mode != Mode::C07 {
+            let path = scratch.fresh("w");
+            let out = exec::run_history(&h, &cfg, &path);
+            let _ = std::fs::remove_file(&path);
+            absorb(&mut shard, ctx, mode, &h, &out, &mut total, "free-list-walk");
+        }
+        i += 1;
+    }
+    // ---- 5d. directed: directory of nested buckets (four levels), delete one / write into another
+    {
+        let n = 72usize;
+        let mut idx = 0u64;
+        for d in 0..n {
+            for w in 0..n {
+                let near = (d as i64 - w as i64).abs() <= 4;
+                // quick: the written bucket near the deleted one, plus a thin sample of far pairs
+                if !(deep || near || (d * 31 + w * 17) % 23 == 0) || mode == Mode::C07 {
+                    continue;
+                }
+                idx += 1;
+                if idx % ctx.nshards != ctx.shard {
+                    continue;
+                }
+                let h = shape::bucket_dir_history(ps, n, d, w, (d + w) % 3);
+                let path = scratch.fresh("bd");
+                let out = exec::run_history(&h, &cfg, &path);
+                let _ = std::fs::remove_file(&path);
+                absorb(&mut shard, ctx, mode, &h, &out, &mut total, "bucket-directory");
+            }
+        }
     }
     // ---- 6. C07 only: iterations that are under way while the transaction mutates entries ahead of them
     if mode == Mode::C07 {
